@@ -17,6 +17,7 @@ type OptDef struct {
 	Required  int      `json:"required,omitempty"` // 0 no, 1 yes, 2 with custom message
 	Valid     []string `json:"valid,omitempty"`
 	Suggested []string `json:"suggested,omitempty"`
+	ShareVar  int      `json:"share_var,omitempty"`           // kind 14 only: >0 = this StringVar option stores into shared variable number ShareVar of its node (several options, one destination)
 	SuggFn    bool     `json:"suggested_values_fn,omitempty"` // SuggestedValuesFn: a callback computing value completions (its calls are logged)
 	Env       string   `json:"env,omitempty"`
 	ArgName   string   `json:"arg_name,omitempty"`
@@ -31,6 +32,7 @@ type CmdDef struct {
 	Subs         []CmdDef `json:"subs,omitempty"`
 	Fn           bool     `json:"fn,omitempty"`
 	Unset        bool     `json:"unset_options,omitempty"`
+	Lower        bool     `json:"map_keys_to_lower,omitempty"` // SetMapKeysToLower on this command only
 	RequireOrder bool     `json:"require_order,omitempty"`
 	Unknown      int      `json:"unknown_mode,omitempty"` // -1 = inherit (0 is a mode), stored +1
 	SelfName     string   `json:"self_name,omitempty"`    // Self(name, description) called on the command: its display name in help
@@ -86,6 +88,9 @@ func (sc *Scenario) DefinitionCalls() []string {
 		}
 		if c.Unset {
 			out = append(out, path+".UnsetOptions()")
+		}
+		if c.Lower && path != "opt" {
+			out = append(out, path+".SetMapKeysToLower()")
 		}
 		if c.SelfName != "" && path != "opt" {
 			out = append(out, fmt.Sprintf("%s.Self(%q, ...)", path, c.SelfName))
@@ -151,10 +156,16 @@ func genOpts(r *simrt.RNG, taken map[string]bool, n int, reqBias int) []OptDef {
 			o.Max = 1 + r.Intn(3)
 		}
 		if (o.Kind <= 7 || o.Kind == 14) && o.Kind != 1 && r.Intn(5) == 0 {
-			o.Env = "VERIF_ENV_" + strings.ToUpper(w)
+			o.Env = "VERIF_ENV_" + strings.ToUpper(strings.ReplaceAll(w, "-", "_"))
 		}
 		if r.Intn(6) == 0 {
 			o.ArgName = "thing"
+		}
+		if o.Kind == 14 && r.Intn(2) == 0 {
+			o.ShareVar = 1 + r.Intn(2)
+			if r.Intn(2) == 0 {
+				o.Env = "VERIF_ENV_" + strings.ToUpper(strings.ReplaceAll(w, "-", "_"))
+			}
 		}
 		if o.Kind >= 2 && r.Intn(8) == 0 {
 			o.SuggFn = true
@@ -180,6 +191,9 @@ func genCmd(r *simrt.RNG, name string, taken map[string]bool, depth int, reqBias
 	c.Opts = genOpts(r, taken, r.Intn(5), reqBias)
 	if r.Intn(10) == 0 {
 		c.Unset = true
+	}
+	if r.Intn(8) == 0 {
+		c.Lower = true
 	}
 	if r.Intn(8) == 0 {
 		c.RequireOrder = true
@@ -256,7 +270,7 @@ func valueFor(r *simrt.RNG, o *OptDef) string {
 	case 4, 7, 10:
 		return []string{"1.5", "2", "abc"}[r.Intn(3)]
 	case 11, 12:
-		return []string{"k=v", "Key=Val", "novalue"}[r.Intn(3)]
+		return []string{"k=v", "Key=Val", "novalue", "key=val"}[r.Intn(4)]
 	}
 	return "1"
 }
@@ -321,6 +335,13 @@ func Generate(seed uint64) *Scenario {
 					sc.Argv = append(sc.Argv, "--"+w+"="+valueFor(r, o))
 				} else {
 					sc.Argv = append(sc.Argv, "--"+w, valueFor(r, o))
+					if o != nil && (o.Kind == 11 || o.Kind == 12) && r.Intn(2) == 0 {
+						// several key=value arguments for one option, keys differing only in case
+						sc.Argv = append(sc.Argv, []string{"key=V2", "KEY=v3", "Key=other", "k=w"}[r.Intn(4)])
+						if r.Intn(2) == 0 {
+							sc.Argv = append(sc.Argv, []string{"key=V4", "kEy=v5"}[r.Intn(2)])
+						}
+					}
 				}
 			}
 		case 2: // abbreviation (possibly ambiguous)
